@@ -20,8 +20,10 @@ def monitor(obs_path, hcfg, workdir, spec="ManagedObs.tla", timeout=1800):
             f.write("SPECIFICATION Spec\nCONSTANTS\n  NPre = %d\n  NPost = %d\n  NPc = %d\n  HasRuntime = %s\n"
                     "POSTCONDITION Consumed\nCHECK_DEADLOCK FALSE\n"
                     % (hcfg.get("npre", 0), hcfg.get("npost", 0), hcfg.get("npc", 0), rt))
-        else:
+        elif spec == "UnmanagedObs.tla":
             f.write("SPECIFICATION Spec\nCONSTANTS\n  HasRuntime = %s\nPOSTCONDITION Consumed\nCHECK_DEADLOCK FALSE\n" % rt)
+        else:
+            f.write("SPECIFICATION Spec\nPOSTCONDITION Consumed\nCHECK_DEADLOCK FALSE\n")
     env = dict(os.environ)
     env["OBS"] = os.path.abspath(obs_path)
     env["JAVA_TOOL_OPTIONS"] = "-Xss1g"
